@@ -47,6 +47,9 @@ type LockEngine struct {
 	Pkgs       map[string]bool       // package paths whose functions are analysed
 	SkipFn     func(*Fn) bool
 	ArmedBlock map[string]bool // lock classes under which channel operations are violations
+	// CtxLits: struct types whose composite literals capture an object whose lock must be held while the
+	// value exists (type -> field holding the object, lock class)
+	CtxLits map[*types.Named][2]string
 	// results
 	needs     map[*Fn]map[string]lockReq
 	acqs      map[*Fn]map[string]lockAcq
@@ -527,6 +530,18 @@ func (le *LockEngine) node(fn *Fn, n ast.Node, f Facts, visit bool) {
 			}
 		case *ast.CallExpr:
 			le.call(fn, x, f, deferCall[x], goCall[x], handled, rec)
+		case *ast.CompositeLit:
+			if nt := namedOf(le.p.TypeOf(fn, x)); nt != nil {
+				if spec, ok := le.CtxLits[nt]; ok {
+					for _, el := range x.Elts {
+						if kv, ok := el.(*ast.KeyValueExpr); ok {
+							if id, ok := kv.Key.(*ast.Ident); ok && id.Name == spec[0] {
+								le.ctxAccess(fn, x, kv.Value, spec[1], f, rec)
+							}
+						}
+					}
+				}
+			}
 		case *ast.Ident:
 			if rec {
 				le.sibIdent(fn, x, f)
@@ -1106,4 +1121,28 @@ func (le *LockEngine) sibIdent(fn *Fn, id *ast.Ident, f Facts) {
 	}
 	sort.Strings(own)
 	le.SibReads = append(le.SibReads, sibRead{Lit: goLit, Pos: id.Pos(), Obj: v, Held: own, OK: len(own) > 0})
+}
+
+// ctxAccess: building a context value that captures obj requires obj's lock (read mode) at that point —
+// held here, or supplied by every caller (requirement lifted like a field access).
+func (le *LockEngine) ctxAccess(fn *Fn, lit *ast.CompositeLit, obj ast.Expr, class string, f Facts, rec bool) {
+	root, key, ok := le.p.PathKey(fn, obj)
+	a := lockAccess{Fn: fn, Pos: lit.Pos(), Kind: "context", Class: class, Mode: "R", Expr: types.ExprString(lit)}
+	if !ok {
+		a.Unknown, a.Base = true, "?"+types.ExprString(obj)
+		if rec {
+			le.Accesses = append(le.Accesses, a)
+		}
+		return
+	}
+	a.Base = key
+	if le.hasLock(f, key, class, "R") {
+		a.Held, a.Via = true, "held in "+fn.Name
+	} else if rel := le.rel(fn, root, key); rel != "" && !le.insideGo(fn) {
+		a.Lifted = true
+		le.addNeed(fn, lockReq{Class: class, Rel: rel, Mode: "R", Why: fmt.Sprintf("context literal %s in %s", types.ExprString(lit), fn.Name), Pos: lit.Pos(), Fn: fn, Kind: "context", Field: "ctx"})
+	}
+	if rec {
+		le.Accesses = append(le.Accesses, a)
+	}
 }
